@@ -74,3 +74,25 @@ def ccname(eng, st, name, pdg_name=None):
     n = eng.as_val(st, name)
     p = z3.BoolVal(False) if pdg_name is None else eng.truth(st, pdg_name)
     return sv_str(CCNAME(get_s(n.t), p))
+
+
+@spec_function()
+def float_ok(eng, st, s):
+    return sv_bool(smt.float_ok(get_s(eng.as_val(st, s).t)))
+
+
+@spec_function()
+def int_ok(eng, st, s):
+    return sv_bool(smt.int_ok(get_s(eng.as_val(st, s).t)))
+
+
+@spec_function()
+def sorted_src(eng, st, lst, j):
+    """ghost: position in the input of the element that sorted() put at position j of its result"""
+    from pyvc.builtins_model import PERM
+    return sv_int(PERM(_ref(eng, st, lst), eng.as_val(st, j).i))
+
+
+@spec_function()
+def str_le(eng, st, a, b):
+    return sv_bool(get_s(eng.as_val(st, a).t) <= get_s(eng.as_val(st, b).t))
